@@ -78,6 +78,10 @@ def check(repo, col, tier):
     from . import c08
     col.rule("R-C05-pairing", "data-fed inputs and their row indices are merged in the same order", 3)
     c08._pairing(repo, col, "R-C05-pairing")
+    # a trainable that is bypassed on one use (read from the tables instead of `params`) gets only part of its derivative
+    from . import c10 as _c10
+    col.rule("R-C05-paramsource", "the step reads every physical quantity from the `params` it is given, never from the module's tables", 6)
+    _c10.param_source(repo, col, "R-C05-paramsource")
 
 
 def _promises(repo, col):
